@@ -107,6 +107,8 @@ def athlon(ctx, repo):
     arms, chain = dispatch_arms(score)
     if arms is None:
         raise AnalysisError('score(): dispatch chain not found')
+    from .c01 import dispatch_case_rule
+    dispatch_case_rule(ctx, repo, mod, score, 'ATH')
     mark = score.args.args[2].arg
     RL = score_roles(score)
     co, af = RL['coeffs'], RL['age']
